@@ -113,19 +113,24 @@ pub fn parse_until<'a, T: Parse + Clone + Debug>(
                 }) {
                     return Err(forked.error("Expected combinator after `~`"));
                 }
-                deferred_determiner.erase_input(input)?;
+            }
+            // The `~` is only taken off the input once the combinator behind it is accepted: in front of a
+            // look-alike inside of an operand which isn't complete yet it stays a token of that operand.
+            let after_deferred = input.fork();
+            if deferred {
+                deferred_determiner.erase_input(&after_deferred)?;
             }
 
             // Always look the determiners up in their declared order, so overlapping
             // operators keep resolving to the longest one. An operand forwarded by a `macro_rules!`
             // fragment (`$t:ty`, `$e:expr`) arrives as a `None`-delimited group, which `peek` looks
             // through: an operator never starts inside of it.
-            let possible_group = if input.cursor().group(Delimiter::None).is_some() {
+            let possible_group = if after_deferred.cursor().group(Delimiter::None).is_some() {
                 None
             } else {
                 group_determiners
                     .clone()
-                    .find(|group| is_group_start(group, input))
+                    .find(|group| is_group_start(group, &after_deferred))
             };
             possible_group
                 .map(|group| {
@@ -135,7 +140,14 @@ pub fn parse_until<'a, T: Parse + Clone + Debug>(
                 .unwrap_or(false)
                 && {
                     next = possible_group;
+                    if deferred {
+                        deferred_determiner.erase_input(input)?;
+                    }
                     true
+                }
+                || {
+                    deferred = false;
+                    false
                 }
         }
     {
